@@ -236,7 +236,13 @@ pub async fn read_http_request<const BUF_SIZE: usize>(
         .remove_only("expect")
         .map_or(false, |s| s.as_str() == "100-continue");
     let (gzip, chunked) = {
-        let opt_ascii_string = head.headers.remove_only("transfer-encoding");
+        // Reject repeated Transfer-Encoding headers.  Treating them as absent
+        // would let the sender and this server disagree about where the body ends.
+        let mut values = head.headers.remove_all("transfer-encoding").into_iter();
+        let opt_ascii_string = match (values.next(), values.next()) {
+            (opt_value, None) => opt_value,
+            _ => return Err(HttpError::UnsupportedTransferEncoding),
+        };
         let mut iter = opt_ascii_string
             .as_ref()
             .map(AsciiString::as_str)
@@ -268,10 +274,15 @@ pub async fn read_http_request<const BUF_SIZE: usize>(
             }
         }
     }
-    let content_length = if let Some(s) = head.headers.get_only("content-length") {
-        Some(s.parse().map_err(|_| HttpError::InvalidContentLength)?)
-    } else {
-        None
+    // https://datatracker.ietf.org/doc/html/rfc7230#section-3.3.2
+    //     Content-Length = 1*DIGIT
+    // Reject repeated headers and values like "+5" that `u64::from_str` accepts.
+    let content_length = match head.headers.get_all("content-length").as_slice() {
+        [] => None,
+        [s] if !s.is_empty() && s.bytes().all(|b| b.is_ascii_digit()) => {
+            Some(s.parse().map_err(|_| HttpError::InvalidContentLength)?)
+        }
+        _ => return Err(HttpError::InvalidContentLength),
     };
     #[allow(clippy::match_same_arms)]
     // https://datatracker.ietf.org/doc/html/rfc7230#section-3.3
